@@ -376,6 +376,12 @@ def battery_pairs():
         return dict({"schema": schema, "name": name, "cols": [{"name": "id", "ty": "INTEGER", "nullable": False, "pk": True}] +
                      [{"name": c, "ty": "INTEGER", "nullable": True, "pk": False} for c in cols],
                      "idxs": list(idxs), "uqs": list(uqs), "fks": list(fks)}, **kw)
+    def with_pk(t, order, name):
+        for c in t["cols"]:
+            if c["name"] in order:
+                c["nullable"] = False
+        return dict(t, pk_order=order, pk_name=name)
+
     out = []
     for sch in (None, "s2"):
         schemas = [None] + (["s2"] if sch else [])
@@ -391,7 +397,9 @@ def battery_pairs():
                     ("add-unique", plain(), plain(uqs=[uq])), ("drop-unique", plain(uqs=[uq]), plain()),
                     ("add-fk", plain(), plain(fks=[fk])), ("drop-fk", plain(fks=[fk]), plain()),
                     ("add-column", plain(), tbl(sch, "t_b", ["a_1", "b_1", "c_x"])),
-                    ("without-rowid-drop", tbl(sch, "t_b", ["a_1"], without_rowid=True), None)]
+                    ("without-rowid-drop", tbl(sch, "t_b", ["a_1"], without_rowid=True), None),
+                    ("composite-pk-drop", with_pk(tbl(sch, "t_b", ["a_1", "b_1"]), ["b_1", "a_1", "id"], None), None),
+                    ("named-composite-pk-drop", with_pk(tbl(sch, "t_b", ["a_1", "b_1"]), ["b_1", "id"], "pk_tb"), None)]
         for name, a, b in variants:
             out.append(("%s/%s" % (sch or "main", name),
                         {"schemas": schemas, "conn": [ref, a], "meta": [ref] + ([b] if b is not None else []), "comments": False}))
@@ -473,7 +481,7 @@ def autogen_case(ctx, pair, mode=None):
             if opts_after != opts_before:
                 diff = {k: (opts_before.get(k), opts_after.get(k)) for k in set(opts_before) | set(opts_after)
                         if opts_before.get(k) != opts_after.get(k)}
-                ctx.fail({"pair": pair, "where": "undo"}, "undo-options: reflected table options differ after upgrade+downgrade "
+                ctx.fail({"pair": pair, "where": "undo"}, "undo-options: reflected table options / primary key column order differ after upgrade+downgrade "
                          "(before, after): %s" % diff, impl={"up": [ro.op_json(o) for o in up.ops]}, tags=["undo"])
             if rest:
                 ctx.fail({"pair": pair, "where": "undo"}, "undo: after upgrade+downgrade autogenerate still sees differences from the start schema: %s"
